@@ -1,110 +1,13 @@
-(* driver.ml — runs the extracted Coq model on the same case files as the Rust harness.
-   usage: driver <suite> <cases> <out>.  Zarith is used ONLY to parse/print decimal numbers;
-   all arithmetic is done by the extracted code on Coq's own Z. *)
-module M = Model
+(* driver.ml — main of the model driver: driver <suite> <cases> <out>.
+   Suites live in drv_<name>.ml and register themselves in Drv_common.suites. *)
+open Drv_common
 
-let rec pos_of_big (n : Z.t) : M.positive =
-  if Z.equal n Z.one then M.XH
-  else if Z.is_even n then M.XO (pos_of_big (Z.shift_right n 1))
-  else M.XI (pos_of_big (Z.shift_right n 1))
-
-let z_of_big (n : Z.t) : M.z =
-  let s = Z.sign n in
-  if s = 0 then M.Z0 else if s > 0 then M.Zpos (pos_of_big n) else M.Zneg (pos_of_big (Z.neg n))
-
-let rec big_of_pos (p : M.positive) : Z.t =
-  match p with
-  | M.XH -> Z.one
-  | M.XO q -> Z.shift_left (big_of_pos q) 1
-  | M.XI q -> Z.succ (Z.shift_left (big_of_pos q) 1)
-
-let big_of_z (z : M.z) : Z.t =
-  match z with M.Z0 -> Z.zero | M.Zpos p -> big_of_pos p | M.Zneg p -> Z.neg (big_of_pos p)
-
-let zs (z : M.z) : string = Z.to_string (big_of_z z)
-let zi (i : int) : M.z = z_of_big (Z.of_int i)
-
-(* token stream *)
-type toks = { mutable l : string list }
-let toks_of_line (s : string) : toks =
-  { l = List.filter (fun x -> x <> "") (String.split_on_char ' ' (String.trim s)) }
-let next (t : toks) : string =
-  match t.l with [] -> failwith "missing token" | x :: r -> t.l <- r; x
-let nz (t : toks) : M.z = z_of_big (Z.of_string (next t))
-let ni (t : toks) : int = int_of_string (next t)
-let nb (t : toks) : bool = ni t <> 0
-let at_end (t : toks) : bool = t.l = []
-
-let err_s (e : M.err) : string =
-  match e with M.EPanic -> "PANIC" | M.ENone -> "NONE" | M.E c -> "E" ^ zs c
-
-let res_s (f : 'a -> string) (r : 'a M.res) : string =
-  match r with M.Ok a -> f a | M.Err e -> err_s e
-
-let bs (b : bool) : string = if b then "B1" else "B0"
-let bit (b : bool) : string = if b then "1" else "0"
-
-(* ------------------------------------------------------------------ panic *)
-let pst (p : M.pstate) : string =
-  String.concat " " [zs p.M.p_flags; zs p.M.p_daily; zs p.M.p_consec; zs p.M.p_start; zs p.M.p_last_reset]
-
-let suite_panic (line : string) : string =
-  let t = toks_of_line line in
-  let fl = nz t in let dl = nz t in let cs = nz t in let st = nz t in let lr = nz t in
-  let p = ref { M.p_flags = fl; p_daily = dl; p_consec = cs; p_start = st; p_last_reset = lr } in
-  let n = ni t in
-  let out = ref [] in
-  for _ = 1 to n do
-    let op = ni t in
-    let now = nz t in
-    let r =
-      match op with
-      | 0 -> (match M.p_pause !p now with M.Ok p' -> p := p'; "OK" | M.Err e -> err_s e)
-      | 1 -> p := M.p_unpause !p; "OK"
-      | 2 -> (match M.p_unpause_if_expired !p now with M.Ok p' -> p := p'; "OK" | M.Err e -> err_s e)
-      | 3 -> res_s bs (M.p_is_expired !p now)
-      | 4 -> res_s bs (M.p_can_pause !p now)
-      | 5 -> res_s bs (M.c_is_expired (M.ix_propagate !p now) now)
-      | _ -> failwith "bad op" in
-    out := (r ^ " " ^ pst !p) :: !out
-  done;
-  String.concat " | " (List.rev !out)
-
-(* ------------------------------------------------------------------ curve *)
-let parse_ir (t : toks) : M.ir_config =
-  let ct = nz t in
-  let opt = nz t in let pl = nz t in let mx = nz t in
-  let insf = nz t in let insr = nz t in let grpf = nz t in let grpr = nz t in
-  let zero = nz t in let hundred = nz t in
-  let pts = List.init 5 (fun _ -> let u = nz t in let r = nz t in { M.rp_util = u; rp_rate = r }) in
-  { M.ir_optimal = opt; ir_plateau = pl; ir_max = mx; ir_ins_fixed = insf; ir_ins_rate = insr;
-    ir_grp_fixed = grpf; ir_grp_rate = grpr; ir_zero = zero; ir_hundred = hundred; ir_points = pts;
-    ir_curve_type = ct }
-
-let parse_pf (t : toks) : M.prog_fees =
-  let on = nb t in let f = nz t in let r = nz t in
-  { M.pf_on = on; pf_fixed = f; pf_rate = r }
-
-let rates_s (r : M.rates) : string =
-  String.concat " " [zs r.M.r_base; zs r.M.r_lending; zs r.M.r_borrowing; zs r.M.r_group; zs r.M.r_insurance; zs r.M.r_protocol]
-
-let suite_curve (line : string) : string =
-  let t = toks_of_line line in
-  let c = parse_ir t in
-  let pf = parse_pf t in
-  let n = ni t in
-  let v = res_s (fun () -> "OK") (M.ir_validate c) in
-  let outs = List.init n (fun _ -> let ur = nz t in res_s rates_s (M.calc_interest_rate c pf ur)) in
-  String.concat " | " (v :: outs)
-
-(* ------------------------------------------------------------------ main *)
 let () =
   let suite = Sys.argv.(1) in
   let f =
-    match suite with
-    | "panic" -> suite_panic
-    | "curve" -> suite_curve
-    | _ -> prerr_endline ("unknown suite " ^ suite); exit 2 in
+    match Hashtbl.find_opt suites suite with
+    | Some f -> f
+    | None -> prerr_endline ("unknown suite " ^ suite); exit 2 in
   let ic = open_in Sys.argv.(2) in
   let oc = open_out Sys.argv.(3) in
   (try
